@@ -56,6 +56,10 @@ class NeedMonad(Exception):
     pass
 
 INT, BOOL, BYTES, INTS = "Int", "Bool", "Bytes", "List Int"
+DEC = "Decimal"          # an integer-valued decimal.Decimal whose exactness the translator has shown; Lean type Int
+DEC_LIMIT = 10 ** 28     # default context: 28 significant digits
+FLT = "float"            # an integer-valued binary64 float whose exact value the translator knows to be the Int term
+FLT_LIMIT = 2 ** 53      # every integer of smaller magnitude is a binary64 value
 LEAN_KEYWORDS = {"at", "from", "fun", "let", "in", "do", "then", "else", "if", "end", "open", "def", "theorem",
                  "match", "with", "have", "show", "by", "where", "namespace", "section", "import", "instance",
                  "class", "structure", "inductive", "mutual", "variable", "universe", "Type", "Prop", "Sort",
@@ -122,6 +126,28 @@ class Module:
 
     def segment(self, node):
         return ast.get_source_segment(self.src, node) or ""
+
+    def imported(self, name, module, attr=None):
+        """is the module-level name `name` bound exactly once, by `import module` (attr None) or
+        `from module import attr`?"""
+        hits = 0
+        good = False
+        for n in ast.walk(self.tree):
+            if isinstance(n, ast.Import):
+                for a in n.names:
+                    if (a.asname or a.name.split(".")[0]) == name:
+                        hits += 1
+                        good = attr is None and a.name == module and a.asname in (None, name)
+            elif isinstance(n, ast.ImportFrom):
+                for a in n.names:
+                    if (a.asname or a.name) == name:
+                        hits += 1
+                        good = attr is not None and n.module == module and a.name == attr
+            elif isinstance(n, (ast.FunctionDef, ast.ClassDef)) and n.name == name and n in self.tree.body:
+                hits += 1
+            elif isinstance(n, ast.Name) and n.id == name and isinstance(n.ctx, ast.Store):
+                hits += 1
+        return hits == 1 and good
 
     def constant(self, name, where):
         """module-level `NAME = <int expression | list of int expressions>`; exactly one binding"""
@@ -212,6 +238,8 @@ class Fn:
                 return V(lit(v), INT, v, v)
             if isinstance(v, bytes):
                 return V("([%s] : Bytes)" % ", ".join(str(x) for x in v), BYTES, n=len(v))
+            if isinstance(v, float) and v.is_integer() and abs(v) < FLT_LIMIT:
+                return V(lit(int(v)), FLT, int(v), int(v))
             self.err(e, "literal %r (type %s) is not in the subset" % (v, type(v).__name__))
         if isinstance(e, ast.Name):
             if e.id in env:
@@ -270,6 +298,36 @@ class Fn:
             m = re.fullmatch(r"\(\[(.*)\] : List Int\)", inner)
             return V("(Py.replicate %s %s)" % (b.s, m.group(1) if m else "(Py.intAt %s 0)" % a.s), INTS,
                      n=b.lo if b.lo == b.hi else None, elo=a.elo, ehi=a.ehi)
+        if a.t == INT and b.t == FLT and isinstance(op, (ast.Mod, ast.FloorDiv)):
+            # int OP float: the int is converted to binary64 (exact below 2^53); CPython's float % is C fmod (exact)
+            # with a sign fix, float // is (x - fmod(x, y)) / y, an exact quotient of exact operands, then floor;
+            # both results are integer-valued floats of magnitude < 2^53
+            if a.lo is None or a.hi is None or max(abs(a.lo), abs(a.hi)) >= FLT_LIMIT or b.lo != b.hi or b.lo <= 0:
+                self.err(node, "int %s float: cannot show |int| < 2^53 and the float a positive integral constant; "
+                               "declare `ranges` in the SRC table" % ("%" if isinstance(op, ast.Mod) else "//"))
+            r = self.binop(node, op, a, V(b.s, INT, b.lo, b.hi))
+            self.notes.append("int %s %s.0 in binary64 is exact here: |int| <= %d < 2^53 (checked from the declared ranges); "
+                              "its value is the integer floor %s" % ("%" if isinstance(op, ast.Mod) else "//", b.s,
+                              max(abs(a.lo), abs(a.hi)), "remainder" if isinstance(op, ast.Mod) else "quotient"))
+            return V(r.s, FLT, r.lo, r.hi)
+        if DEC in (a.t, b.t) and a.t in (INT, DEC) and b.t in (INT, DEC):
+            # decimal.Decimal under the default context (prec 28, every trap that matters enabled): the result of
+            # + - * is exact when it has at most 28 digits; // truncates towards zero (= floor for operands >= 0)
+            ai, bi = V(a.s, INT, a.lo, a.hi), V(b.s, INT, b.lo, b.hi)
+            if isinstance(op, (ast.Add, ast.Sub, ast.Mult)):
+                r = self.binop(node, op, ai, bi)
+            elif isinstance(op, ast.FloorDiv):
+                if ai.lo is None or ai.lo < 0 or bi.lo is None or bi.lo != bi.hi or bi.lo <= 0:
+                    self.err(node, "Decimal //: cannot show dividend >= 0 and divisor a positive constant")
+                r = self.binop(node, op, ai, bi)
+            else:
+                self.err(node, "operator %s on Decimal is not in the subset" % type(op).__name__)
+            if r.lo is None or r.hi is None or max(abs(r.lo), abs(r.hi)) >= DEC_LIMIT:
+                self.err(node, "cannot show that the Decimal result of %s has at most 28 digits (it would be rounded); "
+                               "declare `ranges` for the parameters in the SRC table" % type(op).__name__)
+            self.notes.append("Decimal %s is exact here: |result| <= %d < 10^28 (checked from the declared ranges)" % (
+                {ast.Add: "+", ast.Sub: "-", ast.Mult: "*", ast.FloorDiv: "//"}[type(op)], max(abs(r.lo), abs(r.hi))))
+            return V(r.s, DEC, r.lo, r.hi)
         if a.t != INT or b.t != INT:
             self.err(node, "operator %s on %s and %s is not in the subset" % (type(op).__name__, a.t, b.t))
         f = lambda s, lo=None, hi=None: V(s, INT, lo, hi)
@@ -455,7 +513,28 @@ class Fn:
             a = self.expr(e.args[0], env)
             if a.t == INT:
                 return a
+            if a.t == DEC:
+                self.notes.append("int(Decimal) of an integer-valued Decimal is its value")
+                return V(a.s, INT, a.lo, a.hi)
+            if a.t == FLT:
+                self.notes.append("int(float) of an integer-valued float is its value")
+                return V(a.s, INT, a.lo, a.hi)
             self.err(e, "int() of %s" % a.t)
+        if name == "Decimal" and len(e.args) == 1:
+            if "Decimal" in env or not self.mod.imported("Decimal", "decimal", "Decimal"):
+                self.err(e, "`Decimal` is not (only) decimal.Decimal in this module")
+            if self.closed_float(e.args[0]):
+                fv = eval(compile(ast.Expression(e.args[0]), "<const>", "eval"), {"__builtins__": {}})
+                if not float(fv).is_integer():
+                    self.err(e, "Decimal of the non-integral float %r is not in the subset" % fv)
+                val = int(fv)
+                self.notes.append("%s is exactly %d (the constructor converts a float exactly)" % (self.mod.segment(e) or ast.unparse(e), val))
+                return V(lit(val), DEC, val, val)
+            a = self.expr(e.args[0], env)
+            if a.t != INT:
+                self.err(e, "Decimal() of %s" % a.t)
+            self.notes.append("Decimal(int) is exact (the constructor does not round)")
+            return V(a.s, DEC, a.lo, a.hi)
         if name == "pow" and len(e.args) == 2:
             a, b = self.expr(e.args[0], env), self.expr(e.args[1], env)
             if None in (a.lo, b.lo) or a.lo != a.hi or b.lo != b.hi or b.lo < 0:
@@ -475,6 +554,8 @@ class Fn:
             lo = 0 if (a.elo is not None and a.elo >= 0) else None
             return V("(Py.sum %s)" % a.s, INT, lo, None)
         if name == "reduce" and len(e.args) == 2 and isinstance(e.args[0], ast.Lambda):
+            if "reduce" in env or not self.mod.imported("reduce", "functools", "reduce"):
+                self.err(e, "`reduce` is not (only) functools.reduce in this module")
             lam = e.args[0]
             if len(lam.args.args) != 2 or lam.args.vararg or lam.args.kwarg or lam.args.defaults:
                 self.err(e, "reduce: the function must be a lambda of two plain parameters")
@@ -489,6 +570,8 @@ class Fn:
                 self.err(e, "reduce: the lambda returns %s" % body.t)
             return self.hoist(e, "Py.reduce (fun (%s %s : Int) => %s) %s" % (lname(x), lname(y), body.s, a.s), INT)
         if isinstance(f, ast.Attribute) and isinstance(f.value, ast.Name) and f.value.id == "struct" and f.value.id not in env:
+            if not self.mod.imported("struct", "struct"):
+                self.err(e, "`struct` is not (only) the standard module in this module")
             if f.attr == "unpack" and len(e.args) == 2:
                 fmt, n = self.fmt_arg(e, e.args[0], env)
                 b = self.expr(e.args[1], env)
@@ -550,6 +633,8 @@ class Fn:
                     args.append(a.s)
             if pyargs:
                 self.err(e, "too many arguments for %s" % target)
+            if sig.get("ranges"):
+                self.err(e, "%s is translated under declared parameter ranges; calling it is not in the subset" % target)
             for x in sig.get("externals", []):
                 if x not in self.spec.get("externals", {}):
                     self.err(e, "%s needs the external %s, which is not declared here" % (target, x))
@@ -654,6 +739,8 @@ class Fn:
         return "(.ok %s)" % v.s if self.monadic else v.s
 
     def ltype(self, t):
+        if t in (DEC, FLT):
+            return "Int"
         if t.startswith("rec:"):
             return " × ".join(["Int"] * len(t.split(":")[2].split(",")))
         return t
@@ -1170,6 +1257,14 @@ def translate_function(mod, spec):
             else:
                 env[p] = V(lname(p), pt[0])
                 binders.append("(%s : %s)" % (lname(p), pt[0]))
+        # declared ranges become hypotheses of the definition: it cannot be applied outside them
+        for key, (lo, hi) in spec.get("ranges", {}).items():
+            if key not in env or env[key].t != INT:
+                raise TranslationError("%s: range declared for %s, which is not an int parameter" % (spec["func"], key))
+            v = env[key]
+            env[key] = V(v.s, INT, lo, hi)
+            binders.append("(h_%s : %s ≤ %s ∧ %s ≤ %s)" % (v.s, lit(lo), v.s, v.s, lit(hi)))
+            fn.notes.append("translated for %d <= %s <= %d only (hypothesis h_%s)" % (lo, key, hi, v.s))
         muts = spec.get("mutates", [])
         def fall(e2):
             raise TranslationError("%s:%d %s: control can reach the end of the function (returns None): not in the subset" % (
@@ -1208,7 +1303,7 @@ def translate_function(mod, spec):
     lean = "%s\ndef %s %s : %s :=\n%s" % (doc, lean_name, " ".join(binders), rett, indent(text))
     mod.funcs[spec["func"] if "prefix_upto" not in spec and "from_var" not in spec else "#" + lean_name] = {
         "lean": lean_name, "params": params, "ret": fn.rettype, "monadic": monadic,
-        "externals": list(externals)}
+        "externals": list(externals), "ranges": dict(spec.get("ranges", {}))}
     mod.defs.append(lean)
     return lean_name, monadic
 
